@@ -319,9 +319,11 @@ fn special_world(kind: usize, tag: &str) -> Result<Special, String> {
             let sys = build_system(csv_of(&rows, &pos).as_bytes(), b"1 1\n0 0 0\n")?;
             let cfg = config_json(&wd, &[], &[simple_oov_json(0, 0, 5000)], &[], &[]);
             let base = load(&cfg, sys.clone(), vec![])?;
-            for k in 0..4 {
+            // `U<k>` panicked before the repair of D8's first half (e034f1e); a plain id beyond the user lexicon still does
+            let forms: Vec<String> = (0..4).map(|k| format!("U{}", k)).chain((0..60).map(|k| k.to_string())).collect();
+            for k in forms {
                 let mut r = Row::simple("東京", 0, 0, 10, NOUN);
-                r.dic_form = format!("U{}", k);
+                r.dic_form = k.clone();
                 let mut urows = vec![r];
                 for j in 0..3 { urows.push(Row::simple(&format!("都{}", j), 0, 0, 10, NOUN)); }
                 let ub = match build_user(&base, csv_of(&urows, &pos).as_bytes()) { Ok(b) => b, Err(_) => continue };
@@ -332,10 +334,10 @@ fn special_world(kind: usize, tag: &str) -> Result<Special, String> {
                     r.is_err() && tok.verif_state().2.is_none()
                 };
                 if hit {
-                    return Ok(Special { wd, dic, desc: format!("special:user-dicform-U{}", k), has_default: false, words: vec!["あ".into(), "都1".into(), "ああ".into()], bad_text: Some("東京".into()) });
+                    return Ok(Special { wd, dic, desc: format!("special:user-dicform-panic-{}", k), has_default: false, words: vec!["あ".into(), "都1".into(), "ああ".into()], bad_text: Some("東京".into()) });
                 }
             }
-            Err("no user dictionary form U<n> produced a panic after the path was taken".into())
+            Err("no user dictionary form produced a panic after the path was taken".into())
         }
         // plain dictionary with the default input plugin (normalisation expands) and splits
         1 => {
